@@ -29,7 +29,7 @@ def build(rng, profile="full", **kw):
         sections = None
         if sensible:
             sections = []
-        elif has_itp and syntax == "ff":
+        elif has_itp and syntax == "ff" and not kw.get("unrestricted_ff_sections"):
             sections = ["position_restraints"]      # edge-neutral (see DESIGN C13/C14 notes)
         b = FF.gen_block(rng, nm, syntax, max_atoms=kw.get("max_atoms", 5), sections=sections,
                          nrexcl=None if kw.get("mixed_nrexcl", True) else 1)
@@ -51,7 +51,7 @@ def build(rng, profile="full", **kw):
     single = {b["name"]: b for b in blocks}
     links = []
     opts = dict(kw.get("link_opts", {}))
-    if layout != "ff":
+    if layout != "ff" and not kw.get("unrestricted_ff_sections"):
         opts["p_version"] = 0.0       # version tags are rewritten when an .itp file is finalised
     if layout != "itp_dangling" or rng.random() < 0.3:
         for _ in range(rng.randint(0, kw.get("max_links", 4))):
